@@ -122,7 +122,7 @@ def run_case(ctx, fam, M, k, sel, dtype, tag="rand"):
 
 def strat_case():
     from hypothesis import strategies as st
-    return st.tuples(logprob_matrix(big_alphabet=True), st.sampled_from([1, 2, 3, 5, 10, 10000]), st.sampled_from(["default", "all"]),
+    return st.tuples(logprob_matrix(big_alphabet=True, long_lines=True), st.sampled_from([1, 2, 3, 5, 10, 10000]), st.sampled_from(["default", "all"]),
                      st.sampled_from(["f64", "f64", "f32"]))
 
 
@@ -130,6 +130,8 @@ def body_random(ctx, case):
     (fam, M), k, sel, dtype = case
     if k > 10 and M.shape[1] ** M.shape[0] > 4000:
         k = 10      # bounds the O(n^2) prefix joining of the decoder; unpruned runs need C^T <= 4000
+    if M.shape[0] > 30:
+        k = min(k, 5)
     run_case(ctx, fam, M, k, sel, dtype)
 
 
